@@ -5,8 +5,10 @@ import GqlgenVerif.Lemmas.ExecPerm
 namespace GqlgenVerif
 open D
 
+/-- deferred by the generated code: a resolver-backed field (not `__typename`, not a plain struct field) whose
+    collected entry carries a deferral label -/
 def isDeferredField (f : FInfo × Shape) : Bool :=
-  (if f.1.name == "__typename" then none else f.1.deferred).isSome
+  (if f.1.name == "__typename" || f.1.plain then none else f.1.deferred).isSome
 
 theorem flatMap_modify_append {α β : Type} (acc : List (α × List β)) (i : Nat) (x : β) (h : i < acc.length) :
     ((acc.modify i fun g => (g.1, g.2 ++ [x])).flatMap (·.2)).Perm (acc.flatMap (·.2) ++ [x]) := by
@@ -28,7 +30,7 @@ theorem groupByLabel_partition (fields : List (FInfo × Shape)) (acc : List (Str
   | cons f rest ih =>
     obtain ⟨fi, sh⟩ := f
     simp only [groupByLabel]
-    cases hd : (if fi.name == "__typename" then none else fi.deferred) with
+    cases hd : (if fi.name == "__typename" || fi.plain then none else fi.deferred) with
     | none =>
       have : isDeferredField (fi, sh) = false := by unfold isDeferredField; rw [hd]; rfl
       simp only [List.filter_cons, this]
@@ -127,7 +129,7 @@ theorem groupByLabel_noDefer : ∀ (fields : List (FInfo × Shape)) (acc : List 
   | (fi, sh) :: rest, acc, h => by
     simp only [fieldsNoDefer] at h
     simp only [D.groupByLabel, h.1]
-    have : (if fi.name == "__typename" then (none : Option String) else none) = none := by split <;> rfl
+    have : (if fi.name == "__typename" || fi.plain then (none : Option String) else none) = none := by split <;> rfl
     rw [this]
     exact groupByLabel_noDefer rest acc h.2.2
 
@@ -202,7 +204,7 @@ theorem D_field (o : Oracle) (fi : FInfo) : ∀ (sh : Shape) (p : Path) (d : DSt
       cases c with
       | reached =>
         simp only []
-        cases o.res p with
+        cases o.outcome fi p with
         | val v =>
           simp only []
           split
